@@ -364,6 +364,69 @@ fn run_threads(r: &RLN, m: &Msgs, lists: &[Vec<(RCall, u16)>], limit: Duration) 
 }
 
 // ---------------------------------------------------------------------------------------------
+// (f) two key files in one process
+// ---------------------------------------------------------------------------------------------
+
+fn run_two_keys(sh: &Shared, threads: usize, o: &mut Outcome) {
+    let k2 = match crate::rlnh::rescaled_zkey() {
+        Ok(k) => k,
+        Err(e) => {
+            vfail!(o, "cannot derive a second valid key file: {e}");
+            return;
+        }
+    };
+    let graph = crate::rlnh::graph_bytes().to_vec();
+    let (msg, _sig) = &sh.msgs.msgs[0];
+    let make = |key: &[u8]| guarded(|| RLN::new_with_params(3, key.to_vec(), graph.clone(), Cursor::new("{}".to_string())).map_err(|e| e.to_string()));
+    let verdict = |r: &RLN| guarded(|| r.verify(Cursor::new(msg.clone())).map_err(|e| e.to_string()));
+    // sequential reference: an instance from the second key file rejects a message proven for the shipped key
+    let want2 = match make(k2) {
+        Ok(Ok(r)) => format!("{:?}", verdict(&r)),
+        other => {
+            vfail!(o, "new_with_params refused a valid key file: {:?}", other.map(|r| r.map(|_| ())));
+            return;
+        }
+    };
+    // the shipped key file is read last ...
+    let want1 = match make(rln::circuit::ZKEY_BYTES) {
+        Ok(Ok(r)) => format!("{:?}", verdict(&r)),
+        other => {
+            vfail!(o, "new_with_params refused the shipped key file: {:?}", other.map(|r| r.map(|_| ())));
+            return;
+        }
+    };
+    if want1 != "Ok(Ok(true))" || want2 == want1 {
+        vfail!(o, "sequential reference: instance from the shipped key file gives {want1}, from the second key file {want2} (expected acceptance / rejection)");
+        return;
+    }
+    // ... then `threads` callers create instances from the second key file at once
+    let barrier = Arc::new(Barrier::new(threads));
+    let got: Vec<String> = std::thread::scope(|s| {
+        let hs: Vec<_> = (0..threads)
+            .map(|_| {
+                let barrier = barrier.clone();
+                let (make, verdict) = (&make, &verdict);
+                s.spawn(move || {
+                    barrier.wait();
+                    match make(k2) {
+                        Ok(Ok(r)) => format!("{:?}", verdict(&r)),
+                        other => format!("construction failed: {:?}", other.map(|r| r.map(|_| ()))),
+                    }
+                })
+            })
+            .collect();
+        hs.into_iter().map(|h| h.join().unwrap_or_else(|_| "thread panicked".into())).collect()
+    });
+    for (t, g) in got.iter().enumerate() {
+        o.evals += 1;
+        if g != &want2 {
+            vfail!(o, "{threads} threads creating instances from the same key file at once (another key file was read just before): thread {t}'s instance answers {g} for a message proven under the shipped key, an instance created alone answers {want2}");
+            return;
+        }
+    }
+}
+
+// ---------------------------------------------------------------------------------------------
 // (e) readers behind the C interface
 // ---------------------------------------------------------------------------------------------
 
@@ -756,7 +819,10 @@ pub enum Case {
     /// every thread hammers one call (cheap queries many times, verifications a few times)
     Burst { calls: Vec<RCall>, fresh: bool },
     Lazy { lists: Vec<Vec<(RCall, u16)>> },
-    Recreate { api: Api, depth: usize, cfg: StoreCfg, n: u8, writes: Vec<(u16, u8)>, #[serde(default)] handoff_ms: u16 },
+    Recreate { api: Api, depth: usize, cfg: StoreCfg, n: u8, writes: Vec<(u16, u8)>, #[serde(default)] handoff_ms: u16, #[serde(default)] other_height: bool },
+    /// instances created from one key file by several threads at once, right after another key file was
+    /// read: each must carry the key it was given (verdicts on a message proven for the shipped key)
+    TwoKeys { threads: u8 },
     /// one context behind the C interface: long-lived reader threads query it together (root, the
     /// written leaf, its membership path) after every write, which another thread makes while they wait
     FfiReaders { depth: usize, readers: u8, writes: Vec<(u16, u8)> },
@@ -811,7 +877,7 @@ impl Property for C18 {
     }
     fn rule(&self) -> String {
         "fixed part: W generated sequential workloads (batch updates on the persistent tree at depth 10/20, 2 witnesses -> full witness, witness-map H vector, Groth16 proof with fixed blinding, proof values; 2 public-API prove+verify; 12-24 read-only calls incl. verdicts on golden and tampered messages), each run in 4 child processes with RAYON_NUM_THREADS = 1, 2, 4, 16: transcripts identical line by line. \
-         generated part: Shared = one shared instance (the long-lived one, or one created for the case and first touched by the concurrent callers), 2/4/16 threads released by a barrier, each with a generated list of read-only calls (verify*, recover, hash, poseidon_hash, seeded key derivation, unseeded key generation shape, root/leaf/proof/subtree-root/empty-list/metadata queries) and spin/yield jitter, every result equal to the same call made sequentially (one caller at a time, on the reference instance); Burst = 2/4/8/16 threads each repeating one call (membership-path queries 1500x quick / 6000x thorough, verifications a few times) against its sequential result; Lazy = the same in a fresh child process where every thread first builds its own instance (concurrent first touch of the lazily initialised globals); Recreate = persistent instance dropped and re-created n times at once (trait / RLN API, storage configurations), each re-creation must return Ok with the persisted state within 60 s (else exit 2); hand-over variant: the new instance is constructed by another thread while the old one is released 1..1000 ms later; FfiReaders = one context behind the C interface (depth 2..6), 1..4 long-lived reader threads released together after every one of 1..5 writes made by another thread, each reading the root and the written leaf's membership path (the writing thread also the leaf): every read equals the ideal tree after that write; calculate_rln_witness on the bundled graph and on damaged graph files (empty node record / cut in half / cut 3 bytes short / header only; error and contained panic both count as refused) are among the read-only calls. \
+         generated part: Shared = one shared instance (the long-lived one, or one created for the case and first touched by the concurrent callers), 2/4/16 threads released by a barrier, each with a generated list of read-only calls (verify*, recover, hash, poseidon_hash, seeded key derivation, unseeded key generation shape, root/leaf/proof/subtree-root/empty-list/metadata queries) and spin/yield jitter, every result equal to the same call made sequentially (one caller at a time, on the reference instance); Burst = 2/4/8/16 threads each repeating one call (membership-path queries 1500x quick / 6000x thorough, verifications a few times) against its sequential result; Lazy = the same in a fresh child process where every thread first builds its own instance (concurrent first touch of the lazily initialised globals); Recreate = persistent instance dropped and re-created n times at once (trait / RLN API, storage configurations), each re-creation must return Ok with the persisted state within 60 s (else exit 2); hand-over variant: the new instance is constructed by another thread while the old one is released 1..1000 ms later; TwoKeys = the shipped key file is read, then 2..4 threads create instances from a second valid key file (delta halved, L and H queries doubled) at once: every instance must answer as one created alone; Recreate cases with two writes end by creating an instance of another height on the location (must return within 60 s, else exit 2); FfiReaders = one context behind the C interface (depth 2..6), 1..4 long-lived reader threads released together after every one of 1..5 writes made by another thread, each reading the root and the written leaf's membership path (the writing thread also the leaf): every read equals the ideal tree after that write; calculate_rln_witness on the bundled graph and on damaged graph files (empty node record / cut in half / cut 3 bytes short / header only; error and contained panic both count as refused) are among the read-only calls. \
          evaluations = compared results. non-trivial = run with >= 4 threads in which >= 2 threads issued the same call kind at the same step, or a Recreate case with >= 10 re-creations; distinct by case content. Schedules are sampled, not enumerated.".into()
     }
     fn assumptions(&self) -> Vec<String> {
@@ -865,9 +931,9 @@ impl Property for C18 {
             },
             proptest::collection::vec((any::<u16>(), 1u8..POOL as u8), 1..4),
         )
-            .prop_map(|(api, depth, cfg, n, writes)| Case::Recreate { api, depth, cfg, n, writes, handoff_ms: 0 });
+            .prop_map(|(api, depth, cfg, n, writes)| Case::Recreate { api, depth, cfg, n, other_height: writes.len() == 2, writes, handoff_ms: 0 });
         let rec_handoff = (prop_oneof![3 => Just(Api::Trait), 1 => Just(Api::Rln)], 3usize..=6, proptest::collection::vec((any::<u16>(), 1u8..POOL as u8), 1..3), prop_oneof![1u16..120, 120u16..1000])
-            .prop_map(|(api, depth, writes, handoff_ms)| Case::Recreate { api, depth, cfg: StoreCfg { cache: 0, flush_ms: 0, low_space: false, compression: false, path_style: 0 }, n: 2, writes, handoff_ms });
+            .prop_map(|(api, depth, writes, handoff_ms)| Case::Recreate { api, depth, cfg: StoreCfg { cache: 0, flush_ms: 0, low_space: false, compression: false, path_style: 0 }, n: 2, writes, handoff_ms, other_height: false });
         prop_oneof![
             1 => rec_handoff,
             8 => (lists(8), any::<bool>()).prop_map(|(lists, fresh)| Case::Shared { lists, fresh }),
@@ -876,6 +942,7 @@ impl Property for C18 {
                 .prop_map(|(calls, fresh)| Case::Burst { calls, fresh }),
             1 => lists(5).prop_map(|lists| Case::Lazy { lists }),
             3 => rec,
+            1 => (2u8..=4).prop_map(|threads| Case::TwoKeys { threads }),
             2 => (2usize..=6, 1u8..=4, proptest::collection::vec((any::<u16>(), 1u8..POOL as u8), 1..6)).prop_map(|(depth, readers, writes)| Case::FfiReaders { depth, readers, writes }),
         ]
         .boxed()
@@ -1027,7 +1094,12 @@ impl Property for C18 {
                 run_ffi_readers(*depth, *readers as usize, writes, &mut o);
                 o.nontrivial = *readers >= 2 && writes.len() >= 2;
             }
-            Case::Recreate { api, depth, cfg, n, writes, handoff_ms } => {
+            Case::TwoKeys { threads } => {
+                o.label(format!("two-keys/{threads}-threads"));
+                run_two_keys(sh, *threads as usize, &mut o);
+                o.nontrivial = *threads >= 2;
+            }
+            Case::Recreate { api, depth, cfg, n, writes, handoff_ms, other_height } => {
                 o.label(format!("recreate/{api:?}"));
                 let base = ctx.tmpdir.join(format!("c18-rec-{:016x}-{:?}", case_hash(case), std::thread::current().id()));
                 let _ = std::fs::remove_dir_all(&base);
@@ -1121,6 +1193,28 @@ impl Property for C18 {
                     }
                 }
                 st.close();
+                if *other_height && !o.failed() {
+                    // the location now holds a tree of height `depth`: creating an instance of another
+                    // height on it must come back (with an instance or an error) in bounded time
+                    o.label("recreate/other-height");
+                    let other = super::c16::Case { depth: *depth + 1, cfg: *cfg, api: *api, ops: vec![], mode: super::c16::Mode::NoFault };
+                    let (tx, rx) = std::sync::mpsc::channel::<Duration>();
+                    let baseref = &base;
+                    std::thread::scope(|sc| {
+                        sc.spawn(move || {
+                            let t0 = Instant::now();
+                            let mut st2 = Store::new(&other, baseref);
+                            let _ = st2.open();
+                            st2.close();
+                            let _ = tx.send(t0.elapsed());
+                        });
+                        if rx.recv_timeout(Duration::from_secs(60)).is_err() {
+                            println!("INCONCLUSIVE property=C18 creating an instance of another height on a location that holds a tree did not return within 60 s");
+                            std::process::exit(2);
+                        }
+                    });
+                    o.evals += 1;
+                }
                 let _ = std::fs::remove_dir_all(&base);
                 o.nontrivial = *n >= 10 || *handoff_ms > 0;
             }
